@@ -13,6 +13,10 @@ K : trace validation.  Every exposed optimiser is run on 1-4 parameter toy probl
     queries reach the model function and at which point, every objective value, the returned vector and the reported
     optimum; `checkTrace` re-derives the clauses of the property and must agree with the direct oracle.  Plus direct K on
     `_project_params_up/down`, `_object_func` (bounds, None entries, NaN, ll_scale, fixed) and `perturb_params`.
+    Element types: `_project_params_up` allocates its output; the translator reads the allocation statement into `upOutDtype` (element type
+    of the output as a function of the element type numpy infers for the reduced vector), the driver executes the typed definitions
+    `projectUpT` / `objectFuncT` / `runWrapperT` with the element types observed on the real call (p0, queries, answer), and
+    `C12_up_store` / `C12_up_dtype` / `C12_objective_dtype` / `C12_run_dtype` prove them equal to the untyped ones.
 L3: the property statement evaluated on the real calls, independent of the model: no exception, first model evaluation is
     the user's start, every evaluation inside the bounds and carrying the fixed values, returned vector fixed/in bounds,
     likelihood of the returned vector (recomputed from the toy model) equals the reported optimum, `opt` not worse than
@@ -1392,6 +1396,16 @@ def run(chk, ctx):
                 'func_kwargs unchanged, mutable default arguments of the wrapper, of opt and of _object_func still at their initial value (then restored, so that each '
                 'case is replayable alone). sequences: for every wrapper two (some: three) consecutive fits in one process with every input different (pts, toy/data, '
                 'p0, bounds, fixed, multinom, extras), defaults NOT restored in between. parameters fixed at exactly zero in seven spellings. '
+                'SPELLING of the vectors (the property is about values): p0 / bounds as float list (default), tuple, float array, list of numpy floats, and - with an '
+                'integer-valued start strictly inside the box - list / tuple of Python ints, int64 / int32 arrays, lists of numpy ints, half of those with integer bounds '
+                'in integer types; fixed_params as list or tuple, fixed values as Python floats, Python ints, numpy ints / floats / 0-d arrays; through every wrapper '
+                '(structured: 3 typed cases per wrapper, random: 35 %). TIGHT boxes (structured: 3 per wrapper, random: 20 %): per entry an active upper bound (optimum '
+                'above it), an active lower bound, or a box of a few % around the optimum, with bounds below 1, around 1 and above e, so that [lb, ub] and [log lb, log ub] '
+                'are different sets. grids written as a:b:mj, a:b:float step, a:b:step with INTEGERS only (the objective receives integer arrays next to non-integer fixed '
+                'values) and mixtures, as tuple or list; oracle also: the set of evaluated points is the product of the documented axes with the fixed values folded in, '
+                'and the best of those is returned. projections: reduced / full vectors in every spelling above plus float32 arrays and a bare Python / numpy scalar '
+                'for a single free parameter, integer-valued free entries next to non-integer fixed values, the output of one projection fed to the other as it is. '
+                '_object_func: parameter vectors as integer / float arrays, lists, tuples; bounds as tuples / arrays / numpy scalars. '
                 'distinct = distinct (wrapper, #params, fixed?, bound kinds, multinom, toy kind, ll_scale, algorithm, full_output, default maxiter, zero-fixed) etc.')
     chk.unproved = ['convergence / optimality of scipy and NLopt: not claimed; the optimiser is an arbitrary strategy in the theorems',
                     'that scipy / NLopt query only inside the bounds they are given (L-BFGS-B, SLSQP, nlopt): an assumption of C12_optimizer_box, validated on every recorded trace',
